@@ -284,7 +284,7 @@ class Gen(object):
             out.append(('E', e[1], e[2], at, e[4]))
         return out
 
-    def document(self, depth=0, cls=None):
+    def document(self, depth=0, cls=None, many_objects=0):
         r = self.rng
         cls = cls or r.choice(DOC_CLASSES)
         counter = [0]
@@ -351,7 +351,11 @@ class Gen(object):
         if r.random() < 0.2:
             rec['thumbnail'] = enc_bytes(b'\x89PNG' + bytes(bytearray(r.randrange(256) for _ in range(8))))
         # embedded sub-documents
-        if depth < 2:
+        for k in range(many_objects):
+            o = self.document(2, r.choice(['Spreadsheet', 'Chart', 'Drawing', 'Text']))
+            o['pictures'] = []; o['fonts'] = []
+            rec['objects'].append(o)
+        if depth < 2 and not many_objects:
             p = [0.45, 0.12][depth]
             while r.random() < p and len(rec['objects']) < 3:
                 rec['objects'].append(self.document(depth + 1, r.choice(['Spreadsheet', 'Chart', 'Drawing', 'Text'])))
@@ -821,7 +825,9 @@ def run(chk, replay=None):
         G = Gen(V, chk.rng, chk.tier)
         n = 250 if chk.tier == 'quick' else 3000
         for i in range(n):
-            rec = G.document(cls=DOC_CLASSES[i % len(DOC_CLASSES)] if i < 2 * len(DOC_CLASSES) else None)
+            # document 3 (and every 100th) embeds 10-12 sub-documents: folder numbers with two digits
+            rec = G.document(cls=DOC_CLASSES[i % len(DOC_CLASSES)] if i < 2 * len(DOC_CLASSES) else None,
+                             many_objects=chk.rng.randint(10, 12) if i % 100 == 3 else 0)
             rec = json.loads(json.dumps(rec))
             try:
                 rep, raw1, d2, s1 = run_recipe(V, rec, tmpdir)
